@@ -798,6 +798,10 @@ func main() {
 	fs.Set("stderrthreshold", "FATAL") //nolint
 	klog.SetOutput(io.Discard)
 
+	if d := os.Getenv("VERIF_C16_WRITE_CORPUS"); d != "" {
+		writeCorpus(d)
+		return
+	}
 	rig.Main("C16", func(c *rig.Ctx) {
 		c.SetRule("an UpstreamCluster object (valid object with 0-3 rule-breaking perturbations out of 30, or drawn wild: endpoints from a URL grammar incl. https://%zz, http://[::1, https://, mixed schemes; real and corrupted ed25519 PEM material generated at start-up; every combination of the five flow-control members with boundary numbers; colliding schema / server / cluster names; 0-2 other clusters in the lister; optionally a previously accepted object to apply it over) is validated by the real ValidateUpstreamCluster and plugin Validate and, under recover, applied to the real CreateClusterInfo (local and remote mode), ClusterInfo.Sync as an update, syncUpstreamCluster, the limiter server's UpstreamConditionHandler and two reconcile periods incl. UpdateRateLimitConditionStatus; distinct = distinct canonical case; non-trivial = the object is accepted, or was built by perturbing a valid object (everything but the wild stream)")
 		if c.Replay != "" {
